@@ -333,7 +333,7 @@ def reach(counters, tier, info):
     v = counters.get("grid_tuples", 0)
     out.append({"name": "validation grid enumerated completely", "observed": v, "required": total or "grid size",
                 "ok": total > 0 and v == total})
-    k = 1 if tier == "quick" else 15
+    k = 0.5 if tier == "quick" else 15
     for rule in ("B0=0", "B1>0", "B3<=B4", "T0=T1", "T2=0", "T3=T4"):
         c = counters.get("single_rule:" + rule, 0)
         out.append({"name": f"tuples violating exactly the rule {rule}", "observed": c, "required": 100,
